@@ -13,6 +13,7 @@ import (
 
 	"github.com/ohler55/ojg"
 
+	"verif/harness/cmd/reflect/pa"
 	"verif/harness/lib"
 )
 
@@ -106,7 +107,10 @@ func boundaryC15(emit func(*c15Case)) {
 		Low{1, 2, 3, 4, 5}, By{B: []byte("ab"), LB: [][]byte{[]byte("cd"), nil}, MB: map[string][]byte{"k": []byte("ef")}, I: []byte("gh")},
 		MN{M: map[string][]int{"nil": nil, "one": {1}}, N: map[string]map[string]int{"nil": nil}},
 		[]any(nil), struct{ I any }{I: []any(nil)}, []any{}, map[string]any(nil),
-		NO{P: &In{}, L: []In{{}}, Q: []*In{{}}, M: map[string]In{"k": {}}}, NO{}}
+		NO{P: &In{}, L: []In{{}}, Q: []*In{{}}, M: map[string]In{"k": {}}}, NO{},
+		// embedded structs and pointers that carry json tags (C15-embedded-tag-ignored)
+		pa.EmbTagged{ID: 1, Meta: pa.Meta{Rev: 2, Note: "n"}, Audit: &pa.Audit{By: "me", At: 5}, Leaf: pa.Leaf{Flag: true, Num: 3}, Name: "x"},
+		pa.EmbTagged{ID: 1}, pa.EmbTaggedP{Meta: &pa.Meta{Rev: 2}, Audit: pa.Audit{By: "me"}, Leaf: &pa.Leaf{Num: 3}, Weight: 0.5}, pa.EmbTaggedP{}}
 	specs := []optSpec{goOpt, {}, {UseTags: true}, {KeyExact: true}, {NestEmbed: true, UseTags: true, KeyExact: true},
 		{UseTags: true, KeyExact: true, CreateKey: "^", BytesAs: ojg.BytesAsArray}, {CreateKey: "type", FullTypePath: true, BytesAs: ojg.BytesAsString}}
 	for _, x := range vals {
@@ -366,8 +370,18 @@ func checkC15(d *lib.Driver, c *c15Case) error {
 			rp := c.replay()
 			rp["encoding_json"] = j
 			rp["reference"] = want[false]
-			rep.Add(lib.Finding{Kind: "violation", Class: "json:prescription-differs", Replay: rp,
-				What: "with the Go-compatible options the prescribed tree differs from encoding/json"})
+			f := lib.Finding{Kind: "violation", Class: "json:prescription-differs", Replay: rp,
+				What: "with the Go-compatible options the prescribed tree differs from encoding/json"}
+			// known: ojg ignores a json tag on an EMBEDDED struct; the reference that honours it the way
+			// encoding/json does (a name nests, "-" drops) must then be encoding/json's tree
+			en, e3 := lib.ParseCanon((&refEnc{o: &o, embTags: true}).value(reflect.ValueOf(arg), true).String())
+			if id := "C15-embedded-tag-ignored"; e1 == nil && e3 == nil && laxEqual(en, jn) {
+				f.Class, f.What = f.Class+":"+id, "ojg flattens an embedded struct whose json tag has a name (or is \"-\"); encoding/json nests it under the name (drops it)"
+				if lib.HasKnown(knownList, id) {
+					f.Kind, f.KnownID = "known", id
+				}
+			}
+			rep.Add(f)
 		}
 	}
 	return nil
